@@ -27,10 +27,12 @@ pub enum RP {
     Tail,
     /// `["/a", "/b"]`
     Multi,
+    /// `["", "/b"]`: a list with an empty alternative (inside a scope it matches the bare prefix)
+    MultiEmpty,
 }
 
-pub const RP_ALL: [RP; 9] =
-    [RP::Empty, RP::Slash, RP::A, RP::ASlash, RP::Dyn, RP::ADyn, RP::Digits, RP::Tail, RP::Multi];
+pub const RP_ALL: [RP; 10] =
+    [RP::Empty, RP::Slash, RP::A, RP::ASlash, RP::Dyn, RP::ADyn, RP::Digits, RP::Tail, RP::Multi, RP::MultiEmpty];
 
 impl RP {
     /// The pattern strings handed to `web::resource`.
@@ -45,6 +47,7 @@ impl RP {
             RP::Digits => vec![r"/{x:\d+}"],
             RP::Tail => vec!["/{t}*"],
             RP::Multi => vec!["/a", "/b"],
+            RP::MultiEmpty => vec!["", "/b"],
         }
     }
 }
